@@ -164,6 +164,21 @@ def stack_vocab():
                                    "PUSH 1 ADD", "ADD", "SUB", "ISZERO", "PUSH 0 ADD", "PUSH 1 MUL", "AND", "NOT"]]
 
 
+def deep_vocab():
+    """instructions that reach 8..16 deep into the stack, with consumers whose operand order matters and with
+    instructions that split a block or store (operand indices straddling s(9)/s(10), DUP16/SWAP16 reach)"""
+    return [frag(x, "*") for x in ["DUP8", "DUP9", "DUP10", "DUP11", "DUP15", "DUP16", "SWAP9", "SWAP10", "SWAP15", "SWAP16",
+                                   "SUB", "LT", "ADD", "POP", "MSTORE", "MSTORE8", "SSTORE", "LOG0", "LOG1", "PUSH 5 ADD", "DUP1"]]
+
+
+def deep_blocks(n3, seed):
+    """all pairs and n3 sampled triples over deep_vocab (input depth up to 17)"""
+    import corpus
+    b2, _ = enumerate_blocks(deep_vocab(), [["*"], ["*", "*"]], 17)
+    b3, _ = enumerate_blocks(deep_vocab(), [["*", "*", "*"]], 17)
+    return b2 + corpus.sample(b3, n3, seed)
+
+
 def enumerate_blocks(vocab, shapes, maxin, simulate=None, seed=0, timeout=1800, cap=None):
     """Let TLC enumerate (or simulate: (num, depth)) the fragment sequences; returns texts in TLC's order."""
     w = common.workdir()
